@@ -22,7 +22,7 @@ type codecPair struct {
 }
 
 func checkC14(p *ana.Prog, r *ana.Result) {
-	r.Explain("C14 (structural clauses, decided exactly for fixed layouts): for ntp.EncodePacket/DecodePacket, csptp.EncodeMessage/DecodeMessage, Encode/DecodeRequestTLV and Encode/DecodeResponseTLV the byte<->(field,shift) relation extracted from the encoder equals the one extracted from the decoder, every field of width w uses shifts 0,8,..,w-8 exactly once, offsets are pairwise distinct and cover [0,L) (L = declared length; the flag arm covers [36,54)), and the decoder assigns every leaf field of the message on every path to its success return (so decoding into a reused struct cannot keep stale fields) - together these are round-trip and re-encode equality for these codecs. LVM accessors: for all 256 bytes and all in-range arguments Get(Set(x)) == x, the other two fields unchanged, getters read bits 7-6/5-3/2-0 (truth tables). NTS extension fields: the type constant written by each pack equals the one tested by the same kind's unpack, the four are pairwise distinct, DecodePacket dispatches each constant to its own kind, every pack pads to 4 bytes. Cookie TLV tags written by Encode equal the tags read by Decode. NTS-KE: every record type a pack method writes has an arm in ReadData, only the end-of-message arm returns nil, and every read of the stream inside package ntske goes through binary.Read/io.ReadFull (full reads; segmentation independence). Both extension-field walks (datagram, decrypted fields) are entered whenever at least 28 bytes remain behind the cursor (the test is read as a linear inequality in len(buf) - cursor), so a field that ends the buffer exactly is decoded. Extension lengths: for the four NTS extension encoders the Length written into the header equals the bytes occupied (returned cursor minus given cursor, as a sum of lengths with copy(dst, src) counted as len(src)) and is a multiple of four for every value length.")
+	r.Explain("C14 (structural clauses, decided exactly for fixed layouts): for ntp.EncodePacket/DecodePacket, csptp.EncodeMessage/DecodeMessage, Encode/DecodeRequestTLV and Encode/DecodeResponseTLV the byte<->(field,shift) relation extracted from the encoder equals the one extracted from the decoder, every field of width w uses shifts 0,8,..,w-8 exactly once, offsets are pairwise distinct and cover [0,L) (L = declared length; the flag arm covers [36,54)), and the decoder assigns every leaf field of the message on every path to its success return (so decoding into a reused struct cannot keep stale fields) - together these are round-trip and re-encode equality for these codecs. LVM accessors: for all 256 bytes and all in-range arguments Get(Set(x)) == x, the other two fields unchanged, getters read bits 7-6/5-3/2-0 (truth tables). NTS extension fields: the type constant written by each pack equals the one tested by the same kind's unpack, the four are pairwise distinct, DecodePacket dispatches each constant to its own kind, every pack pads to 4 bytes. Cookie TLV tags written by Encode equal the tags read by Decode. NTS-KE: every record type a pack method writes has an arm in ReadData, only the end-of-message arm returns nil, and every read of the stream inside package ntske goes through binary.Read/io.ReadFull (full reads; segmentation independence). Both extension-field walks (datagram, decrypted fields) are entered whenever at least 28 bytes remain behind the cursor (the test is read as a linear inequality in len(buf) - cursor), so a field that ends the buffer exactly is decoded. Extension lengths: for the four NTS extension encoders the Length written into the header equals the bytes occupied (returned cursor minus given cursor, as a sum of lengths with copy(dst, src) counted as len(src)) and is a multiple of four for every value length. Encode-all: the loops of package nts that pack the Cookies / CookiePlaceholders of a packet can reach a success return only through the loop header's own exit, and the pack call dominates every back edge (no element is skipped or cut off in a packet reported as encoded).")
 	r.Undecided("variable-length NTS fields round-tripping for all lengths; binary.Write/Read reflection semantics; NTS authenticator contents (C10)")
 	pairs := []codecPair{
 		{"net/ntp", "EncodePacket", "DecodePacket", "pkt", "pkt", 48, 48},
@@ -43,6 +43,7 @@ func checkC14(p *ana.Prog, r *ana.Result) {
 	c14NTSKE(p, r)
 	c14FieldWalk(p, r)
 	c14ExtLen(p, r, "C14.ext-length", true, false)
+	c14EncodeAll(p, r)
 }
 
 // c14Lengths: the declared lengths used above are the repo's constants / length functions.
